@@ -68,6 +68,8 @@ def main():
         for f in ("known_findings.jsonl", "exceptions.json", "properties.jsonl"):
             shutil.copy(os.path.join(VERIF, f), vd)
         rc, out = sh([os.path.join(VERIF, "bin/ankocheck"), *(["all"] if "all" in props else props), "--root", wt], VERIF, env=dict(ENV, VERIF_DIR=vd))
+        if rc not in (0, 1):
+            print("THE CHECKER DIED with status", rc, out[:400]); meta["checker_died"] = out[:400]
         fired = [l.strip() for l in out.splitlines() if re.match(r"^  C\d\d \[", l)]
         meta["checks_run"] = props
         meta["caught_by"] = sorted(set(re.findall(r"\[(C\d\d\.R\d+)\]", "\n".join(fired))))
